@@ -588,6 +588,46 @@ func (w *W) genBufferFill(fn inputFn) {
 	}
 }
 
+// genFillThenBlank: valid documents whose closing bracket lies in the very block in which an index
+// buffer fills up (1408..1471 entries), followed by trailing white space of many lengths (none, less
+// than a block, exactly one, more than one, kilobytes) and optionally led by white space: what Parse
+// has to ignore must not turn into a round of its own that finds nothing. With and without a final
+// junk byte (must be rejected).
+func (w *W) genFillThenBlank(fn inputFn) {
+	i := 0
+	for _, m := range []int{1, 2} {
+		for delta := -2; delta <= 66; delta += 1 + delta/8 {
+			// "[ " + "1," x k + "2]": structurals = 1 ('[') + 2k ('1' and ',') + 2 ('2' and ']')
+			total := 1408*m + delta
+			k := (total - 3) / 2
+			if k < 1 {
+				continue
+			}
+			body := "[ " + strings.Repeat("1,", k) + "2]"
+			for _, lead := range []int{0, 1, 64, 200} {
+				for _, trail := range []int{0, 1, 62, 63, 64, 65, 66, 127, 128, 129, 191, 192, 193, 1000, 5000} {
+					i++
+					if !w.mine(i) {
+						continue
+					}
+					ws := func(n int, off int) string {
+						b := make([]byte, n)
+						for j := range b {
+							b[j] = " \n\t\r"[(j+off)%4]
+						}
+						return string(b)
+					}
+					doc := ws(lead, i) + body + ws(trail, i+1)
+					fn("fill-then-blank", []byte(doc))
+					if trail > 0 && i%3 == 0 {
+						fn("fill-then-blank-junk", []byte(doc+"x"))
+					}
+				}
+			}
+		}
+	}
+}
+
 func fillStep(w *W) int {
 	if w.thorough() {
 		return 1
